@@ -383,6 +383,7 @@ Proof.
   - destruct (s_obj s) as [|t f|hd c] eqn:Ho; [| destruct t | destruct hd]; cbn [fst]; exact HD.
   - destruct (s_obj s) as [|t f|hd c] eqn:Ho; [| destruct t | destruct hd]; cbn [fst]; exact HD.
   - destruct (s_obj s) as [|t f|hd c] eqn:Ho; [| destruct t | destruct hd]; cbn [fst]; exact HD.
+  - destruct (s_obj s) as [|t f|hd c] eqn:Ho; [| destruct t | destruct hd]; cbn [fst]; exact HD.
 Qed.
 
 (* ------------------------------------------------------------------ one step, histories *)
